@@ -82,3 +82,52 @@ def fl_class(x):
 def vc_code(r):
     """the bit of an atom as an int"""
     return 1 if r == ValueClass.NAN else (2 if r == ValueClass.INF else (4 if r == ValueClass.ZERO else (8 if r == ValueClass.FINITE else 0)))
+
+
+# ---------------------------------------------------------------------------
+# A3: union-find (fpy2/utils/unionfind.py) against an abstract partition view.
+#
+# Elements are opaque keys (`Key[Elem]`).  The abstract view of a state is a pair of ghost functions
+#     R : Elem -> Elem   (the class representative of an element)        N : Elem -> int   (a rank)
+# and  uf_wf(parent, R, N)  says that the parent map REALISES that view: every parent chain stays inside the
+# structure, R is constant along it, R(k) is a fixed point of `parent`, a fixed point is its own representative,
+# and N strictly decreases along every non-trivial parent step (so every chain is finite and ends in R(k)).
+# The partition denoted by the state is  { {j | R(j) == R(k)} | k in parent }.  `find` keeps (R, N);
+# `union` / `add` change them by an explicit formula (the whole-view postcondition).
+
+def uf_root(k):
+    return ghost_key('uf_root', 'Elem', k)
+
+
+def uf_rank(k):
+    return ghost('uf_rank', k)
+
+
+def uf_wf(parent, R, N):
+    return {
+        'closed': forall_keys('Elem', lambda k: implies(k in parent, map_at(parent, k) in parent)),
+        'root_in': forall_keys('Elem', lambda k: implies(k in parent, R(k) in parent)),
+        'root_fix': forall_keys('Elem', lambda k: implies(k in parent, map_at(parent, R(k)) == R(k))),
+        'root_step': forall_keys('Elem', lambda k: implies(k in parent, R(map_at(parent, k)) == R(k))),
+        'fix_root': forall_keys('Elem', lambda k: implies((k in parent) and map_at(parent, k) == k, R(k) == k)),
+        'rank_step': forall_keys('Elem', lambda k: implies((k in parent) and map_at(parent, k) != k,
+                                                           N(map_at(parent, k)) < N(k))),
+        'rank_nonneg': forall_keys('Elem', lambda k: implies(k in parent, N(k) >= 0)),
+    }
+
+
+def uf_sets_ok(sets, parent, R):
+    """`_sets` maps exactly the roots to their classes"""
+    return {
+        'sets_keys': forall_keys('Elem', lambda r: rel_in(sets, r) == ((r in parent) and map_at(parent, r) == r)),
+        'sets_rows': forall_keys('Elem', lambda r: forall_keys('Elem', lambda k: implies(
+            rel_in(sets, r), rel_has(sets, r, k) == ((k in parent) and R(k) == r)))),
+    }
+
+
+def uf_same_dom(p, q):
+    return forall_keys('Elem', lambda k: (k in p) == (k in q))
+
+
+def named(prefix, clauses):
+    return {prefix + k: v for k, v in clauses.items()}
